@@ -22,6 +22,8 @@ import MultiProofs.BlasGemm
 import MultiProofs.BlasGemv
 import MultiProofs.BlasLevel1
 import MultiProofs.BlasSyrk
+import MultiProofs.BlasHerk
+import MultiProofs.BlasTrsm
 
 namespace Multi.C13
 open Multi.Blas Multi.Blas.Gen
@@ -567,10 +569,99 @@ theorem finding_syrk_branch_2 : SyrkCounterexample syrk.guard_2 syrk.call_2 .low
 theorem finding_syrk_branch_1_nonunit : SyrkCounterexample syrk.guard_1 syrk.call_1 .lower ⟨0, 8, 2, 2, 3, false⟩ ⟨200, 4, 1, 2, 2, false⟩ :=
   ⟨by wf_dec, by wf_dec, by decide, by decide, _, rfl, Or.inr (fun h => absurd (h.elems 0 0 (by decide) (by decide) (by decide) (by decide) (by decide)) (by decide))⟩
 
+/-! ## herk, complex element types (herk.hpp:96-134) — for a non-conjugated C -/
+section herk
+
+macro "herk_branch" s:ident : tactic => `(tactic| (
+  refine ⟨_, rfl, ?_⟩
+  unfold HerkOK
+  rw [herk_illegal_none_iff]
+  cases $s:ident <;>
+  (simp only [RankKCall.LegalHerk, OutIs, RkIsU, Mat.lm, Mat.lmT, Mat.Lin, Mat.RowOK, Mat.ColOK, Filling.char, Filling.flip] at *
+   simp (config := {decide := true}) only [true_and, and_true, true_or, or_true, if_true, if_false, false_and, and_false, false_or, or_false, ne_eq, not_true_eq_false, not_false_eq_true, Decidable.not_not, *] at *
+   omega)))
+
+structure HerkHyp (a c : Mat) : Prop where
+  la : a.Lin
+  lc : c.Lin
+  hn : a.n0 = c.n0
+  hsq : c.n1 = c.n0
+  hc : c.cj = false
+
+variable (side : Filling) (alpha beta : R) (a c : Mat)
+
+/-- herk.hpp:140 — A and C column-major -/
+theorem herk_branch_1_ok (H : HerkHyp a c) (h : herk_plain.guard_1 side a c) (d : a.ColOK ∧ c.ColOK) :
+    ∃ g, herk_plain.call_1 side alpha beta a c = .herk g ∧ HerkOK g alpha beta side a c := by
+  obtain ⟨la, lc, hn, hsq, hc⟩ := H; unfold herk_plain.guard_1 at h
+  have hcj : a.cj = false := by cases hh : a.cj <;> simp_all
+  herk_branch side
+
+/-- herk.hpp:134 — A and C row-major: Cᵀ = (Aᴴ)ᴴ·Aᴴ with the 'C' flag on the stored k×n matrix -/
+theorem herk_branch_5_ok (H : HerkHyp a c) (h : herk_plain.guard_5 side a c) (d : a.RowOK ∧ c.RowOK ∧ (a.s1 = 1 ∨ a.n1 ≤ 1) ∧ (c.s1 = 1 ∨ c.n0 ≤ 1)) :
+    ∃ g, herk_plain.call_5 side alpha beta a c = .herk g ∧ HerkOK g alpha beta side a c := by
+  obtain ⟨la, lc, hn, hsq, hc⟩ := H; unfold herk_plain.guard_5 at h
+  have hcj : a.cj = false := by cases hh : a.cj <;> simp_all
+  herk_branch side
+
+/-- herk.hpp:124 — conj(A) column-major, C row-major -/
+theorem herk_branch_9_ok (H : HerkHyp a c) (h : herk_plain.guard_9 side a c) (d : a.ColOK ∧ c.RowOK ∧ (c.s1 = 1 ∨ c.n0 ≤ 1)) :
+    ∃ g, herk_plain.call_9 side alpha beta a c = .herk g ∧ HerkOK g alpha beta side a c := by
+  obtain ⟨la, lc, hn, hsq, hc⟩ := H; unfold herk_plain.guard_9 at h
+  have hcj : a.cj = true := by cases hh : a.cj <;> simp_all
+  herk_branch side
+
+/-- herk.hpp:129 — conj(A) row-major, C column-major -/
+theorem herk_branch_10_ok (H : HerkHyp a c) (h : herk_plain.guard_10 side a c) (d : a.RowOK ∧ c.ColOK ∧ (a.s1 = 1 ∨ a.n1 ≤ 1)) :
+    ∃ g, herk_plain.call_10 side alpha beta a c = .herk g ∧ HerkOK g alpha beta side a c := by
+  obtain ⟨la, lc, hn, hsq, hc⟩ := H; unfold herk_plain.guard_10 at h
+  have hcj : a.cj = true := by cases hh : a.cj <;> simp_all
+  herk_branch side
+
+/-- certified domain of the leaves of the complex `herk` (11: wrong, `finding_herk_branch_11`; 4 and 8, the `size(a)==1`
+    special cases, are not covered by the certificate: validated by the differential run only) -/
+def herkDom (t : Nat) (a c : Mat) : Prop :=
+  match t with
+  | 1 => a.ColOK ∧ c.ColOK
+  | 5 => a.RowOK ∧ c.RowOK ∧ (a.s1 = 1 ∨ a.n1 ≤ 1) ∧ (c.s1 = 1 ∨ c.n0 ≤ 1)
+  | 9 => a.ColOK ∧ c.RowOK ∧ (c.s1 = 1 ∨ c.n0 ≤ 1)
+  | 10 => a.RowOK ∧ c.ColOK ∧ (a.s1 = 1 ∨ a.n1 ≤ 1)
+  | _ => False
+
+end herk
+
+/-- **herk_correct (partial)**, C not conjugated, Hermitian input (real diagonal): from a certified leaf the xHERK call is
+    legal and C := alpha·A·Aᴴ + beta·C on the `side` triangle (the diagonal loses its imaginary part), nothing else changes.
+    Stated for `herk_plain`, which IS `herk` for a non-conjugated C (`herk_eq_plain`). -/
+theorem herk_correct_partial [DecidableEq R] {nd : Bool} {side : Filling} {alpha beta : R} {a c : Mat} {t : Nat} {cl : Call R}
+    (H : HerkHyp a c) (h : herk_plain nd side alpha beta a c = .call t cl) (hd : herkDom t a c) :
+    ∃ g, cl = .herk g ∧ g.LegalHerk ∧
+      ∀ mem : Mem R, (∀ i : Int, 0 ≤ i → i < c.n0 → CRing.conj (c.load mem i i) = c.load mem i i) → HerkSpec alpha beta side a c mem (g.execHerk mem) := by
+  have key : ∃ g, cl = .herk g ∧ HerkOK g alpha beta side a c := by
+    revert hd
+    refine herk_plain.elim h (fun t cl => herkDom t a c → ∃ g, cl = .herk g ∧ HerkOK g alpha beta side a c) ?_ ?_ ?_ ?_ ?_ ?_ ?_
+    · exact fun g d => herk_branch_1_ok side alpha beta a c H g d
+    · exact fun _ d => d.elim
+    · exact fun g d => herk_branch_5_ok side alpha beta a c H g d
+    · exact fun _ d => d.elim
+    · exact fun g d => herk_branch_9_ok side alpha beta a c H g d
+    · exact fun g d => herk_branch_10_ok side alpha beta a c H g d
+    · exact fun _ d => d.elim
+  obtain ⟨g, hg, hok⟩ := key
+  exact ⟨g, hg, (herk_illegal_none_iff g).mp hok.1, fun mem hdg => herkOK_sound H.hc hok mem hdg⟩
+
+/-- for a non-conjugated C the complex `herk` runs exactly `herk_plain` -/
+theorem herk_eq_plain {nd : Bool} {side : Filling} {alpha beta : R} {a c : Mat} (hc : c.cj = false) :
+    Gen.herk nd side alpha beta a c = herk_plain nd side alpha beta a c := by
+  unfold Gen.herk herk_plain
+  simp only [hc, Bool.false_eq_true, if_false]
+  rfl
+
 /-! ## herk (complex) and trsm: findings
 
-  The correctness of the remaining leaves of `herk` and `trsm` is NOT proved here (no certificate/soundness lemma for xHERK and
-  xTRSM yet): it is validated by the differential run only.  What is proved: the leaves below are wrong. -/
+  The correctness of the leaves of `trsm` is NOT proved here (no certificate/soundness lemma for xTRSM: its specification is
+  an equation, the reference semantics a substitution algorithm): it is validated by the differential run only.
+  What is proved here: the leaves below are wrong. -/
 
 structure HerkCounterexample (guard : Filling → Mat → Mat → Prop) (call : Filling → GInt → GInt → Mat → Mat → Call GInt) (side : Filling) (a c : Mat) : Prop where
   wa : a.WF
@@ -973,6 +1064,87 @@ theorem finding_gemm_nn_branch_18 : GemmCounterexample gemm_n_nn.guard_18 gemm_n
 /-- gemm.hpp:58 [(((a.s1 = 1) ∧ (b.s1 = 1)) ∧ (c.s1 = 1)) ; (a.n0 = 1)] at size class m1ngk0: illegal call (XERBLA parameter 8) -/
 theorem finding_gemm_nn_branch_19 : GemmCounterexample gemm_n_nn.guard_19 gemm_n_nn.call_19 ⟨0, 4, 1, 1, 0, false⟩ ⟨100, 1, 1, 0, 2, false⟩ ⟨200, 2, 1, 1, 2, false⟩ :=
   ⟨by shapes_dec, rfl, by decide, _, rfl, Or.inl (by decide)⟩
+
+/-! ## trsm: dispatch_legal in assertion-enabled builds (full) -/
+
+def trsmLegal : Call R → Prop
+  | .trsm g => g.Legal
+  | _ => True
+
+macro "trsm_legal_leaf" s:ident f:ident d:ident : tactic => `(tactic| (
+  intro _ hc
+  cases $s:ident <;> cases $f:ident <;> cases $d:ident <;>
+  (simp only [Front.coreThrows, Side.char, Side.swap, Filling.char, Filling.flip, Diag.char] at hc
+   simp at hc
+   simp only [maxI_le_iff, le_maxI_iff, Mat.Lin] at *
+   simp (config := {decide := true}) only [trsmLegal, TrsmCall.Legal, isTrans, Side.char, Side.swap, Filling.char, Filling.flip, Diag.char, true_and, and_true, if_true, if_false, true_or, or_true] at *
+   omega)))
+
+/-- **dispatch_legal for trsm, assertion-enabled builds (full).**  `core::trsm` (core.hpp:542-559) re-checks lda and ldb with
+    BOOST_MULTI_ASSERT1, so every xTRSM call that reaches the Fortran routine in such a build is legal; with NDEBUG the checks
+    vanish and the leaves of `finding_trsm_branch_*` issue illegal calls (silent no-op). -/
+theorem trsm_dispatch_legal_debug {side : Side} {fill : Filling} {diag : Diag} {alpha : R} {a b : Mat} {t : Nat} {cl : Call R}
+    (wa : a.WF) (wb : b.WF)
+    (h : Gen.trsm false side fill diag alpha a b = .call t cl) (hc : Front.coreThrows false cl = false) : trsmLegal cl := by
+  have la := wa.lin
+  have lb := wb.lin
+  revert hc
+  refine trsm.elim h (fun t cl => Front.coreThrows false cl = false → trsmLegal cl) ?_ ?_ ?_ ?_ ?_ ?_ ?_ ?_ ?_
+  · unfold trsm.call_2; trsm_legal_leaf side fill diag
+  · unfold trsm.call_3; trsm_legal_leaf side fill diag
+  · unfold trsm.call_5; trsm_legal_leaf side fill diag
+  · unfold trsm.call_6; trsm_legal_leaf side fill diag
+  · unfold trsm.call_8; trsm_legal_leaf side fill diag
+  · unfold trsm.call_10; trsm_legal_leaf side fill diag
+  · unfold trsm.call_11; trsm_legal_leaf side fill diag
+  · unfold trsm.call_12; trsm_legal_leaf side fill diag
+  · unfold trsm.call_13; trsm_legal_leaf side fill diag
+
+/-! ## syrk / herk: dispatch_legal in assertion-enabled builds (full) -/
+
+def rkLegal (cplx : Bool) : Call R → Prop
+  | .syrk g => g.LegalSyrk cplx
+  | .herk g => g.LegalHerk
+  | _ => True
+
+macro "rk_legal_leaf" s:ident : tactic => `(tactic| (
+  intro _ hc
+  cases $s:ident <;>
+  (simp only [Front.coreThrows, Filling.char, Filling.flip] at hc
+   simp at hc
+   simp only [maxI_le_iff, le_maxI_iff, Mat.Lin] at *
+   simp (config := {decide := true}) only [rkLegal, RankKCall.LegalSyrk, RankKCall.LegalHerk, Filling.char, Filling.flip, true_and, and_true, if_true, if_false, true_or, or_true, false_or, or_false, and_false, false_and] at *
+   omega)))
+
+/-- `core::syrk` (core.hpp:476-489) re-checks lda and ldc: in an assertion-enabled build every xSYRK call that reaches the
+    Fortran routine is legal (all four leaves issue 'N' or 'T', legal for real and complex element types) -/
+theorem syrk_dispatch_legal_debug {cplx : Bool} {side : Filling} {alpha beta : R} {a c : Mat} {t : Nat} {cl : Call R}
+    (wa : a.WF) (wc : c.WF)
+    (h : Gen.syrk false side alpha beta a c = .call t cl) (hc : Front.coreThrows false cl = false) : rkLegal cplx cl := by
+  have la := wa.lin
+  have lc := wc.lin
+  revert hc
+  refine syrk.elim h (fun t cl => Front.coreThrows false cl = false → rkLegal cplx cl) ?_ ?_ ?_ ?_
+  · unfold syrk.call_1; rk_legal_leaf side
+  · unfold syrk.call_2; rk_legal_leaf side
+  · unfold syrk.call_3; rk_legal_leaf side
+  · unfold syrk.call_4; rk_legal_leaf side
+
+/-- the same for the complex `herk` with a non-conjugated C (`core::herk`, core.hpp:491-505) -/
+theorem herk_dispatch_legal_debug {side : Filling} {alpha beta : R} {a c : Mat} {t : Nat} {cl : Call R}
+    (wa : a.WF) (wc : c.WF)
+    (h : herk_plain false side alpha beta a c = .call t cl) (hc : Front.coreThrows false cl = false) : rkLegal true cl := by
+  have la := wa.lin
+  have lc := wc.lin
+  revert hc
+  refine herk_plain.elim h (fun t cl => Front.coreThrows false cl = false → rkLegal true cl) ?_ ?_ ?_ ?_ ?_ ?_ ?_
+  · unfold herk_plain.call_1; rk_legal_leaf side
+  · unfold herk_plain.call_4; rk_legal_leaf side
+  · unfold herk_plain.call_5; rk_legal_leaf side
+  · unfold herk_plain.call_8; rk_legal_leaf side
+  · unfold herk_plain.call_9; rk_legal_leaf side
+  · unfold herk_plain.call_10; rk_legal_leaf side
+  · unfold herk_plain.call_11; rk_legal_leaf side
 
 /-! ## rejected_is_inexpressible (partial)
 
